@@ -347,7 +347,7 @@ def handler (cap : Nat) (e t : JVal) : Except Fault (Nat × JVal) :=
   | .error f => .error f
   | .ok (h, code) => .ok (code, h.doc)
 
-/-- number of stack nodes a value needs when it is built whole (values and member names) -/
+/-- `SetUp(json)`: `cap_ = max(16, len/2 + 2)` node slots for a text of `len` bytes -/
 def setUpCap (len : Nat) : Nat := if len / 2 + 2 < 16 then 16 else len / 2 + 2
 
 /-! ## line protocol (`/verif/protocol/merge.md`) -/
